@@ -555,7 +555,7 @@ def check_input(seed, width, length, prob_robot_break, prob_light_break, prob_lo
 
 
 def prob_to_str(prob):
-    return str(int(prob*100))
+    return str(int(round(prob*100, 6)))
 
 
 def main():
